@@ -197,6 +197,8 @@ def apply_contract_env(ex, info, env, st, node):
     rcl = info.clause("result")
     if rcl is not None:
         res = eval_clause_value(ex, info, rcl, cs, old)
+        if isinstance(info.returns, S.Seq) and isinstance(res, VSeq) and res.kind != info.returns.kind:
+            res = VSeq(res.term, res.elem, info.returns.kind)  # the declared container kind (tuple / list / ndarray2) of the result
     elif info.returns is None or info.returns is S.NoneS:
         res = NONE
     else:
